@@ -163,8 +163,14 @@ def instantiate(world):
             units[c['ref']] = cls.ref_unit
         for u in c.get('units', []):
             f = number((u.get('fkind', 'frac'), u['factor']))
-            units[u['sym']] = cls.new_unit(u['sym'], u['sym'] + '-name',
-                                           f * units[u['base']])
+            if u.get('via') == 'term':
+                # defined by a term  number x unit  (the number possibly a plain int)
+                from quantity.term import Term
+                units[u['sym']] = cls.new_unit(u['sym'], u['sym'] + '-name',
+                                               Term([(f, 1), (units[u['base']], 1)]))
+            else:
+                units[u['sym']] = cls.new_unit(u['sym'], u['sym'] + '-name',
+                                               f * units[u['base']])
         for s in c.get('free', []):
             units[s] = cls.new_unit(s, s + '-name')
     return units, classes
@@ -293,6 +299,12 @@ def random_world(rng, n_classes=2, quantized_p=0.4, with_free=False):
             scales[sym] = f * scales[base]
             units.append({'sym': sym, 'factor': f"{f.numerator}/{f.denominator}",
                           'fkind': kind, 'base': base})
+            if quantum is None and rng.random() < (0.7 if kind == 'int' else 0.2):
+                units[-1]['via'] = 'term'
+                if kind == 'int' and rng.random() < 0.7:
+                    # int x reference unit: the term is kept as given, the scale is the int
+                    units[-1]['base'] = ref
+                    scales[sym] = f
             syms.append(sym)
         c = {'name': name, 'ref': ref, 'quantum': quantum, 'units': units}
         classes.append(c)
